@@ -238,6 +238,8 @@ class Instrument:
     def _keep(self, fr):
         if "result" not in fr and "exception" not in fr:
             return      # aborted by the wall-clock cut-off of the pipeline (a BaseException): not a frame
+        if self.stack:
+            self.stack[-1].setdefault("children", []).append(fr)     # the direct callees of an invocation
         if len(self.frames) < self.cap:
             self.frames.append(fr)
 
@@ -423,6 +425,34 @@ def _nominally_below(con, name):
         return False
 
 
+def _has_kind(t, k):
+    """does the type mention (at any depth of its arguments / projection bounds) a type of kind `k`?"""
+    if kind(t) == k:
+        return True
+    if kind(t) == "p":
+        return any(_has_kind(a, k) for a in t.type_args)
+    if kind(t) == "w" and t.bound is not None:
+        return _has_kind(t.bound, k)
+    return False
+
+
+def hierarchy_ok(t):
+    """the class hierarchy above `t` is one a front end accepts: no class inherits two different instantiations
+    of the same generic class (`class Qux : Cell<Integer>, Cell<Array<Long>>` is rejected by every target
+    language; `type_args_map` of find_irrelevant_type is keyed by the class name)"""
+    try:
+        seen = {}
+        for u in t.get_supertypes():
+            if kind(u) == "p":
+                k = str(u.name)
+                if k in seen and not (seen[k] == u):
+                    return False
+                seen.setdefault(k, u)
+    except Exception:
+        return True
+    return True
+
+
 def irrelevant_target(etype, anyt):
     if kind(etype) == "v" and etype.bound is not None and not (etype.bound == anyt):
         return etype.bound
@@ -445,7 +475,7 @@ def irrelevant_shape(etype, result, ans, anyt):
     if direction == "supertype" and kt == "b" and getattr(tgt, "primitive", False) and kr == "b":
         return "supertype:supertype-of-the-box-of-a-primitive"
     if kr == "p" and kt == "p" and result.t_constructor == tgt.t_constructor:
-        if any(kind(a) == "w" for a in tgt.type_args):
+        if _has_kind(tgt, "w"):
             return "%s:same-constructor/projected-query" % direction
         return "%s:same-constructor" % direction
     if kr == "p" and direction == "subtype" and _nominally_below(result.t_constructor, _con_name(tgt)):
@@ -507,6 +537,28 @@ def subtype_shape(fr, r):
             except Exception:
                 pass
             return "[unrelated]"
+        def nested_super_search_wrong(p):
+            """root cause of an offending position: the candidates of this position come from a nested SUPERTYPE
+            search on a type that carries a use-site projection, and that search returned a non-supertype (the
+            recorded defect of the supertype direction: bare types instead of projections of them)"""
+            for ch in fr.get("children", []):
+                if ch["kind"] != "cand" or ch["t_param"] is not p:
+                    continue
+                for c in ch["calls"]:
+                    if c["get_subtypes"] or "result" not in c or not has(c["etype"], "w"):
+                        continue
+                    for x in c["result"]:
+                        try:
+                            if not (x == c["etype"]) and not refsub.sub(c["etype"], x):
+                                return True
+                        except Exception:
+                            pass
+            return False
+        if fr["get_subtypes"]:
+            off = [p for p, a, b in zip(e.t_constructor.type_parameters, e.type_args, r.type_args)
+                   if not (a == b) and offending(p, a, b)]
+            if off and all(nested_super_search_wrong(p) for p in off):
+                return "sub/related/samecon/nested-supertype-search-of-projected-type"
         allmoves = [("%s-to-%s" % (argkind(a), argkind(b)) + (qualifier(a, b) if offending(p, a, b) else ""),
                      offending(p, a, b))
                     for p, a, b in zip(e.t_constructor.type_parameters, e.type_args, r.type_args) if not (a == b)]
@@ -548,21 +600,25 @@ def nesting(t):
 
 
 def _neighbours(x, types, anyt=None):
-    """does the type list hold a proper subtype / a proper supertype (other than the top type) of `x`?"""
-    if x is None or len(types) > 40:
-        return "?"
+    """does the type list hold a proper nominal subtype / a proper nominal supertype (other than a root) of `x`?
+    (cheap: stored supertype closures only, `==` of the IR)"""
+    if x is None or kind(x) not in ("s", "b", "p"):
+        return ""
     sub = sup = False
-    for t in types:
-        t = _ty(t)
-        if kind(t) == "c" or t == x:
-            continue
-        try:
-            if not sub and refsub.sub(t, x):
+    try:
+        ups = [u for u in x.get_supertypes() if not (u == x)]
+        for t in types[:60]:
+            t = _ty(t)
+            if kind(t) not in ("s", "b", "p") or t == x:
+                continue
+            if not sub and any(u == x for u in t.get_supertypes()):
                 sub = True
-            if not sup and (anyt is None or not (t == anyt)) and refsub.sub(x, t):
+            if not sup and list(getattr(t, "supertypes", [])) and any(u == t for u in ups):
                 sup = True
-        except Exception:
-            pass
+            if sub and sup:
+                break
+    except Exception:
+        return "?"
     return ("+sub" if sub else "") + ("+super" if sup else "")
 
 
@@ -749,6 +805,8 @@ def eval_frames(run, frames, label, boxes_by_frame=None, origin=None):
                       ("early:" if ans["early"] else "") + kind(fr["result"]))
             if not ans["ok"] and not query_ok(fr["etype"]):
                 run.tally("refine_irrelevant", "ill-bounded-query-skipped")
+            elif not ans["ok"] and not hierarchy_ok(irrelevant_target(fr["etype"], fr["factory"].get_any_type())):
+                run.tally("refine_irrelevant", "two-instantiations-of-one-superclass-skipped")
             elif not ans["ok"]:
                 st["rejected"] += 1
                 report_irrelevant_rejection(run, rq, ans, fr, label, origin)
